@@ -79,3 +79,26 @@ pub fn mods_snapshot(mods: &GameMods) -> ModsSnapshot {
 pub fn legacy_sort_hit_objects(objects: &mut [HitObject]) {
     crate::util::sort::osu_legacy(objects);
 }
+
+/// The crate-private getters of [`Difficulty`](crate::Difficulty).
+#[derive(Clone, Debug, PartialEq)]
+pub struct DifficultyGetters {
+    pub clock_rate: f64,
+    pub passed_objects: usize,
+    pub hardrock_offsets: bool,
+    pub lazer: bool,
+}
+
+pub fn difficulty_getters(difficulty: &crate::Difficulty) -> DifficultyGetters {
+    DifficultyGetters {
+        clock_rate: difficulty.get_clock_rate(),
+        passed_objects: difficulty.get_passed_objects(),
+        hardrock_offsets: difficulty.get_hardrock_offsets(),
+        lazer: difficulty.get_lazer(),
+    }
+}
+
+/// Clock rate that calculations use for the given settings.
+pub fn difficulty_clock_rate(difficulty: &crate::Difficulty) -> f64 {
+    difficulty.get_clock_rate()
+}
